@@ -330,6 +330,74 @@ def _facts_at_block_end(f, gb, v, L):
     return out.get('k', -G.INF)
 
 
+def c01l(db, res):
+    """A gap is a chunk with data == NULL and len > 0.  The drivers dispatch it only to the states named in their gap arm;
+    those states (and what they call inside the library) must never look at the bytes of the chunk: a subscript or a copy from
+    {in,out}_current_data there dereferences NULL."""
+    from .c09 import DRIVERS
+    res.rule('C01.l', 'gap safety: every state function that a driver dispatches for a gap chunk (data == NULL, len > 0) reads no byte of the chunk - no subscript on, dereference of or copy from {in,out}_current_data in it or in the library functions it calls (hooks are leaves)')
+    n = 0
+    for d, dn in DRIVERS.items():
+        f = db.get(dn)
+        cur = '%s_current_data' % d
+        # the gap arm: blocks under the facts data == NULL and len > 0; the states it compares the state field with
+        states = set()
+        for b in f.blocks:
+            c = f.cond_of(b)
+            if not c:
+                continue
+            a = P.canon(c[0])
+            if a and a[0] == 'connp->%s_state' % d and a[1] == '==' and any(x[0] == ('data', '==', '0') for x in P.facts_at(f, b)):
+                # dispatched through the state pointer?  (REQ/RES_FINALIZE is completed by a direct call instead)
+                found = []
+
+                def visit(bb, ii, st, d=d):
+                    if any(P.member_field(c_.get('fnexpr')) == '%s_state' % d for c_ in nodes(st, lambda y: y.get('k') == 'call' and 'fnexpr' in y)):
+                        found.append(st)
+                        return True
+                    if any(c_.get('callee') and c_['callee'] != 'htp_log' for c_ in nodes(st, lambda y: y.get('k') == 'call')):
+                        return True                              # this arm handles the gap by a direct call
+                    cc = f.cond_of(bb)
+                    return bool(cc and cc[0] is st and (P.canon(st) or ('',))[0] == 'connp->%s_state' % d)
+                C.forward(f, (f.blocks[b]['succs'][0], -1), visit)
+                if found:
+                    states.add(a[2])
+        if not states:
+            res.holds('C01.l', dn + ':no-gap-arm', 'the driver has no gap arm', f.loc)
+            continue
+        # which of them are dispatched through the state pointer (the others are handled by a direct call of something else)
+        for stn in sorted(states):
+            sf = db.fn.get(stn)
+            if sf is None:
+                continue
+            n += 1
+            seen, work, bad = set(), [stn], []
+            while work:
+                g = work.pop()
+                if g in seen or g not in db.fn:
+                    continue
+                seen.add(g)
+                gf = db.fn[g]
+                for b, i, st in gf.stmts():
+                    for x in nodes(st, lambda y: y.get('k') in ('index', 'un', 'call')):
+                        if x['k'] == 'index' and P.member_field(x['base']) == cur:
+                            bad.append((g, x))
+                        elif x['k'] == 'un' and x['op'] == '*' and P.member_field(x['e']) == cur:
+                            bad.append((g, x))
+                        elif x['k'] == 'call':
+                            if x.get('callee') in ('memcpy', 'memchr', 'memcmp') and any(cur in P.K(a_) for a_ in x['args'][:2]):
+                                bad.append((g, x))
+                            elif x.get('callee') in db.fn and not x['callee'].startswith('htp_hook_run') and x['callee'] != 'htp_log':
+                                work.append(x['callee'])
+            key = '%s:gap->%s' % (dn, stn)
+            if bad:
+                g, x = bad[0]
+                res.violated('C01.l', key, '%s is dispatched for a gap chunk (data == NULL) and %s reads the chunk: %s - a NULL dereference when the gap arrives in that state' % (stn, g, S(x)[:80]), x['loc'])
+            else:
+                res.holds('C01.l', key, 'reads no byte of the chunk (%d library functions followed)' % len(seen), sf.loc)
+    res.floor('C01.l', 'states dispatched for a gap chunk', n, 2)
+
+
 def c01i(db, res, own):
     """A slot that holds an allocation is not overwritten with a new one: for every store of a fresh allocation into a
     record field inside a loop there is no path from the store, around the loop, back to the same store along which the
@@ -404,6 +472,7 @@ def run(repo='/repo', tier='quick'):
     c01g(db, res)
     c01h(db, res)
     c01i(db, res, own)
+    c01l(db, res)
     from . import c01j
     c01j.run(db, res)
     c01j.run_reads(db, res)
